@@ -2183,6 +2183,9 @@ func holdsAtOrViaFlag(b *ssa.BasicBlock, pred func(facts []canonCond) bool) bool
 		}
 		all, any := true, false
 		for _, vc := range valueCases(ph, nil) {
+			if vc.V == ssa.Value(ph) {
+				continue // carried around a loop unchanged: it got its value on one of the other edges
+			}
 			k, isC := vc.V.(*ssa.Const)
 			if isC && k.Value != nil && isBoolType(k.Type()) {
 				if (k.Value.ExactString() == "true") != f.True {
